@@ -23,7 +23,7 @@ class Builder:
                  mkparam=None, allow_dangling=True, allow_cpa=True, hostile_names=True, allow_blocks=True,
                  mkdoc=None, compound_generic=True, max_items=8, name_forms=False, trigger=":keyword",
                  p_trigger=0.0, p_between=0.12, p_reuse_params=0.12, p_clone=0.0, clone_toggle_doc=False,
-                 class_arg_variants=False):
+                 class_arg_variants=False, virtual_members=False, p_doc_impl=0.0):
         self.rng = rng
         self.uid = 0
         self.p_doc = p_doc
@@ -50,6 +50,9 @@ class Builder:
         self.p_clone = p_clone                  # repeat an earlier command of the same list verbatim (same name!)
         self.clone_toggle_doc = clone_toggle_doc
         self.class_arg_variants = class_arg_variants
+        self.virtual_members = virtual_members
+        self.virtuals = 0
+        self.p_doc_impl = p_doc_impl            # doccomments on implementing definitions (their own entry is not asserted)
         self.clones = 0
 
     # ---- small helpers
@@ -319,6 +322,9 @@ class Builder:
         selfname = r.choice(["self", "self", "this", "_self", "me", "${self}", "obj"])
         impl = Item(ikind, ikind, [ref, selfname] + pw, iuid, body=body, endcmd="end" + ikind, is_impl=True,
                     name=ref, params=pe)
+        if self.p_doc_impl and r.random() < self.p_doc_impl:
+            impl.doc = [f"{{L{iuid}.0}} doccomment on the implementing definition"]
+            self.unasserted_impl_names.add(ref)
         kind = "cpp_constructor" if ctor else "cpp_member"
         it = Item(kind, kind, [nm, cls] + types, uid, doc=self.doc(uid), impl=impl, name=nm, params=pe, types=types)
         it.between = [x for x in self.gap_items() if x.kind != "cpp_attr"]
@@ -376,6 +382,17 @@ class Builder:
                 body.append(self.plain())
             else:
                 body.append(self.set_())
+        # pure virtual members: a declaration without implementing definition (cpp_virtual_member follows), directly
+        # followed by the next member declaration, which takes over the awaiting slot
+        if self.virtual_members:
+            for i in range(len(body) - 1):
+                a, nx = body[i], body[i + 1]
+                if a.kind in ("cpp_member", "cpp_constructor") and nx.kind in ("cpp_member", "cpp_constructor") and r.random() < 0.3:
+                    a.impl = None
+                    vuid = self.new_uid()
+                    a.between = [Item("plain", "cpp_virtual_member", [a.gt["name"]], vuid)]
+                    a.gt["params"] = []
+                    self.virtuals += 1
         return Item("cpp_class", "cpp_class", [nm] + bases, uid, doc=self.doc(uid, force_doc), body=body,
                     endcmd="cpp_end_class", name=nm, bases=bases)
 
